@@ -94,6 +94,17 @@ def gen_case(run_seed: int, tier: str, index: int = 0) -> dict:
         pre_files["m/" + dest] = bytes(r.getrandbits(8) for _ in range(r.choice([0, 1, 33, 200]))).hex()
         if r.random() < 0.5:
             pre_modes["m/" + dest] = r.choice([0o600, 0o444, 0o664])
+    dds = st.rng("dotdot-dest-single")
+    if scenario in ("absent", "foreign") and "/" not in dest and dds.random() < 0.3:
+        # single-file save whose destination directory is spelled with a `..` after a symlinked directory: the OS
+        # resolves m/lnk/.. to the parent of the link's TARGET, lexical normalisation to m
+        pre_symlinks["m/lnk"] = os.path.join("..", "out", "deep")
+        pre_dirs.append("out/deep")
+        if scenario == "foreign":
+            pre_files["out/" + dest] = pre_files.pop("m/" + dest)
+            if "m/" + dest in pre_modes:
+                pre_modes["out/" + dest] = pre_modes.pop("m/" + dest)
+        dest = "lnk/../" + dest
     for i in range(n):
         nb = r.choice([0, 1, 3, 8, 9, 16, 17, 40, 64, 130, 300])
         choices = ["sim", "np", "lazy", "proto", "ext_other", "bare", "ext_broken"]
